@@ -2,7 +2,8 @@
    Only statements, `exact <lemma>` and Print Assumptions live here.  All statements are for unbounded
    contig sizes and interval counts.  [cov I x] is the number of intervals of I covering base x. *)
 From Coq Require Import ZArith List Bool Permutation.
-From BNP Require Import Base.Prims Model.C08 Proofs.C08 Proofs.C08_merge Proofs.C08_overlap Proofs.C08_sim Proofs.C08_bg Gen.C08 Bridge.C08.
+From BNP Require Import Base.Prims Model.C08 Corr.C08 Proofs.C08 Proofs.C08_merge Proofs.C08_overlap Proofs.C08_sim Proofs.C08_bg
+  Proofs.C08_geom Proofs.C08_link Gen.C08 Bridge.C08.
 Import ListNotations.
 Open Scope Z_scope.
 
@@ -154,11 +155,75 @@ Theorem C08_forbes_per_base :
   forbes_model A B size = Some (forbes_spec A B size).
 Proof. exact forbes_is_per_base. Qed.
 Print Assumptions C08_forbes_per_base.
+(* unique_intersect: among the rows of A that have bases exactly those sharing a base with B are returned, in order,
+   and every returned row is a row of A.  (wf_set allows start = stop.)  A row WITHOUT bases (start = stop = p) is
+   outside the property; the library keeps it iff bases p-1 and p are both covered (Model.unique_keep), so the stronger
+   reading "a row without bases is never returned" is refuted. *)
 Theorem C08_unique_intersect_per_base :
-  forall A B size, 0 <= size -> wf_set B size -> (forall a, In a A -> 0 <= fst a /\ snd a <= size) ->
-  unique_intersect_model A B size = Some (unique_intersect_spec A B).
+  forall A B size, 0 <= size -> wf_set B size -> wf_set A size ->
+  exists out, unique_intersect_model A B size = Some out
+    /\ filter (fun i => fst i <? snd i) out = unique_intersect_spec A B
+    /\ (forall o, In o out -> In o A).
 Proof. exact unique_intersect_is_per_base. Qed.
 Print Assumptions C08_unique_intersect_per_base.
+Theorem C08_unique_intersect_empty_row_refuted :
+  exists A B size, wf_set A size /\ wf_set B size /\ unique_intersect_model A B size <> Some (unique_intersect_spec A B).
+Proof. exact unique_intersect_empty_row_refuted. Qed.
+Print Assumptions C08_unique_intersect_empty_row_refuted.
+
+(* Geometry routes: the contig is chromosome number r of a genome with chromosome sizes [sizes] (all >= 0); Geometry
+   works in global coordinates.  G1/G2: the chromosome's slice of the genome-wide pileup / mask is the coverage /
+   positive coverage of the contig.  G3: Geometry.merge_intervals (chromosomes moved d+1 apart, merged globally, shifted
+   back) is merge_intervals — merging is translation invariant — hence the maximal runs with gaps <= d bridged.
+   G4: Geometry.sort (stable lexsort on global start, stop) is the sort by (chromosome, start, stop). *)
+Theorem C08_geom_pileup_is_coverage :
+  forall sizes r I, genome_wf sizes r ->
+  (forall i, In i I -> 0 <= fst i /\ fst i <= snd i /\ snd i <= gsize sizes r) ->
+  geom_pileup_model sizes r I = pileup_spec I (gsize sizes r).
+Proof. exact geom_pileup_is_coverage. Qed.
+Print Assumptions C08_geom_pileup_is_coverage.
+Theorem C08_geom_mask_is_positive_coverage :
+  forall sizes r I, genome_wf sizes r ->
+  (forall i, In i I -> 0 <= fst i /\ fst i <= snd i /\ snd i <= gsize sizes r) ->
+  geom_mask_model sizes r I = Some (mask_spec I (gsize sizes r)).
+Proof. exact geom_mask_is_positive_coverage. Qed.
+Print Assumptions C08_geom_mask_is_positive_coverage.
+Theorem C08_geom_merge_bridged_runs :
+  forall sizes r d I size, 0 <= d -> 0 <= size ->
+  sortedb Z.leb (map fst I) = true -> (forall i, In i I -> fst i < snd i /\ 0 <= fst i /\ snd i <= size) ->
+  geom_merge_model sizes r d I = merge_model d I /\ geom_merge_model sizes r d I = Some (merge_spec d I size).
+Proof.
+  intros sizes r d I size Hd Hs H1 H2.
+  exact (conj (geom_merge_is_merge sizes r d I size Hd (conj H1 H2)) (geom_merge_bridged_runs sizes r d I size Hd Hs (conj H1 H2))).
+Qed.
+Print Assumptions C08_geom_merge_bridged_runs.
+Theorem C08_geom_sort_perm :
+  forall sizes I, nonneg sizes -> (forall t, In t I -> row_ok sizes t) ->
+  geom_sort_model sizes I = sort_full_model I
+  /\ Permutation (geom_sort_model sizes I) I /\ sortedb key3_leb (geom_sort_model sizes I) = true.
+Proof. intros sizes I H1 H2. exact (conj (geom_sort_is_sort sizes I H1 H2) (geom_sort_ok sizes I H1 H2)). Qed.
+Print Assumptions C08_geom_sort_perm.
+
+Theorem C08_geom_jaccard_per_base :
+  forall sizes r A B, genome_wf sizes r -> wf_set A (gsize sizes r) -> wf_set B (gsize sizes r) ->
+  geom_jaccard_model sizes r A B = Some (jaccard_spec A B (gsize sizes r)).
+Proof. exact geom_jaccard_is_per_base. Qed.
+Print Assumptions C08_geom_jaccard_per_base.
+
+(* LINK: for every correspondence case inside the property's domain — all 18 case classes: pileup, bedgraph pileup,
+   mask, merge, the three sort routes, count_overlap, intersect, unique_intersect, jaccard, forbes, Geometry.jaccard,
+   clip, extend_to_size, Geometry pileup / mask / merge — "the implementation's observation equals the model's output"
+   (model_ok) implies "the observation satisfies the property" (spec_ok).  The only guard: arithmetics.jaccard / forbes
+   (stream route) on an interval set without entries, where the library raises (known finding
+   C08-similarity-empty-set-raises); without the guard the link is refuted. *)
+Theorem C08_model_implies_spec_partial :
+  forall c, domain c = true -> ((k_op c = 11 \/ k_op c = 12) -> A c <> [] /\ B c <> []) ->
+  model_ok c = true -> spec_ok c = true.
+Proof. exact model_implies_spec. Qed.
+Print Assumptions C08_model_implies_spec_partial.
+Theorem C08_model_implies_spec_refuted : exists c, domain c = true /\ model_ok c = true /\ spec_ok c = false.
+Proof. exact model_implies_spec_unguarded_refuted. Qed.
+Print Assumptions C08_model_implies_spec_refuted.
 
 (* Source tie: the per-element arithmetic regenerated on this run from /repo (Gen/C08.v, written by translate/run.py
    from arithmetics/intervals.py, arithmetics/similarity_measures.py and genomic_data/geometry.py) is the arithmetic
@@ -215,6 +280,22 @@ Example C08_nonvacuous_merge :
   /\ merge_spec 2 [(0, 2); (1, 3); (5, 6); (9, 10)] 10 = [(0, 6); (9, 10)]
   /\ merge_spec2 2 [(0, 2); (1, 3); (5, 6); (9, 10)] 10 = [(0, 6); (9, 10)]
   /\ merge_model 0 [(0, 2); (2, 4); (5, 6)] = Some [(0, 4); (5, 6)].
+Proof. vm_compute. repeat split; reflexivity. Qed.
+Example C08_nonvacuous_geom :
+  let sizes := [3; 5; 2] in
+  genome_wf sizes 1 /\ gsize sizes 1 = 5 /\ goff sizes 1 = 3
+  /\ geom_pileup_model sizes 1 [(0, 2); (1, 5); (4, 5)] = [1; 2; 1; 1; 2]
+  /\ geom_merge_model sizes 1 1 [(0, 1); (3, 4); (4, 5)] = Some [(0, 1); (3, 5)]
+  /\ geom_sort_model sizes [(2, 0, 2); (1, 1, 5); (1, 1, 3); (0, 2, 3)] = [(0, 2, 3); (1, 1, 3); (1, 1, 5); (2, 0, 2)]
+  /\ unique_intersect_model [(4, 4); (3, 3); (0, 4)] [(3, 6)] 8 = Some [(4, 4); (0, 4)].
+Proof.
+  cbv zeta. split; [split; [intros z Hz; simpl in Hz; destruct Hz as [E|[E|[E|[]]]]; subst z; discriminate|vm_compute; split; [discriminate|reflexivity]]|].
+  vm_compute. repeat split; reflexivity.
+Qed.
+Example C08_nonvacuous_link :
+  let c := {| k_op := 18; k_size := 5; k_d := 1; k_sizes := [3; 5; 2]; k_rank := 1; k_a := [(0, 0, 1); (0, 3, 4); (0, 4, 5)];
+              k_b := []; k_err := 0; k_dense := []; k_ivs := [(0, 0, 1); (0, 3, 5)]; k_num := 0; k_den := 1; k_kind := 0 |} in
+  domain c = true /\ model_ok c = true /\ spec_ok c = true.
 Proof. vm_compute. repeat split; reflexivity. Qed.
 Example C08_nonvacuous_overlap :
   count_overlap_model [(0, 3); (2, 5)] [(1, 4)] = 4 /\ overlap_spec [(0, 3); (2, 5)] [(1, 4)] 6 = 4
